@@ -332,7 +332,8 @@ theorem broadcastTo?_same (v : ND α) (shape : List Nat) (h : v.shape = shape) :
             get := fun idx => v.get (List.zipWith (fun i s => if s == 1 then 0 else i) (idx.drop 0) v.shape) },
     ?_, rfl, ?_⟩
   · unfold ND.broadcastTo?
-    simp only [Nat.le_refl, if_true, Nat.sub_self, hall]
+    have hnot : ¬ (v.shape.length = 0 ∧ v.shape.length ≠ 0) := fun h => h.2 h.1
+    simp only [hnot, if_false, Nat.le_refl, if_true, Nat.sub_self, hall]
   · intro idx hidx
     simp only [List.drop_zero]
     congr 1
